@@ -13,4 +13,6 @@ import PycsepVerif.Source.C01
 import PycsepVerif.Source.C09
 import PycsepVerif.Source.C10
 import PycsepVerif.Source.C17
+import PycsepVerif.SourceSM.C04F
+import PycsepVerif.SourceSM.C03
 -- REGISTER-SRC (one `import PycsepVerif.Source.Cxx` line per property with a source tie, above this line)
